@@ -159,7 +159,7 @@ class WireLog(object):
         """
         Write bytes data received from source address sa,
         """
-        if self.rx and self.rxLog:
+        if self.rx and self.rxLog and not self.rxLog.closed:
             self.rxLog.write(ns2b("RX {0}\n".format(sa)))
             self.rxLog.write(data)
             self.rxLog.write(b'\n')
@@ -168,7 +168,7 @@ class WireLog(object):
         """
         Write bytes data transmitted to destination address da,
         """
-        if self.tx and self.txLog:
+        if self.tx and self.txLog and not self.txLog.closed:
             self.txLog.write(ns2b("TX {0}\n".format(da)))
             self.txLog.write(data)
             self.txLog.write(b'\n')
